@@ -249,6 +249,11 @@ def runDtcwt (op : String) (ps : List Int) (ts : List (Option (T α))) : Res α 
     if J < 1 then .bad else
     let r := Spec.refForward s h0o.l1 h1o.l1 h0a.l1 h0b.l1 h1a.l1 h1b.l1 (J.toNat - 1) x.l2
     .ok (some (ofL2 r.1) :: r.2.map fun bands => some (ofL4 (bands.map l3OfCplx)))
+  /- the reference inverse pyramid on one image: g0o g1o g0a g0b g1a g1b (raw tables) | low (h×w) | level_1 (6,h,w,2) ... -/
+  | "spec_inverse", [], some g0o :: some g1o :: some g0a :: some g0b :: some g1a :: some g1b :: some low :: highs =>
+    if highs.any (·.isNone) then .bad else
+    let bs := highs.filterMap fun h => h.map fun t => t.l4.map cplxOfL3
+    .ok [some (ofL2 (Spec.refInverse s g0o.l1 g1o.l1 g0a.l1 g0b.l1 g1a.l1 g1b.l1 low.l2 bs))]
   | "FWD_J1_bwd", [o, ri, sym, _skip], [some h0, some h1, some dl, dh] => resOfOpt do
       let bands ← (match dh with
         | none => some none
